@@ -19,10 +19,11 @@ from pathlib import Path
 import numpy as np
 
 from . import common
+from . import c18_path
 from .common import Corr, frac2s
 
 ID = "C18"
-LEAN_MODULES = ["TempestVerif.Props.C18"]
+LEAN_MODULES = ["TempestVerif.Props.C18", "TempestVerif.Props.C18Path"]
 RULE = ("regime X (exact, no arithmetic): configurations over the value universe V of Model/ConfigSpec.lean "
         "(int, float incl. inf/nan, bool, str, None, list, callable, Path, object()) — (a) one option at a time, every option x "
         "every pool value (0, 1, -1, True, 1.0, '1', None, [], [d], [-1], [0,0], nested/unhashable lists, ...), (b) pairs of "
@@ -34,7 +35,15 @@ RULE = ("regime X (exact, no arithmetic): configurations over the value universe
         "(max_iterations, min_points, threshold) and ZERO likelihood calls. Non-trivial = at least one option differs from "
         "the default valid configuration. Suite covering-array-runs: every row of the pairwise (quick) / 3-wise (thorough) "
         "covering array of the option lattice — the array itself is checked in Lean — is constructed and run on the real "
-        "sampler; it must finish with 1-beta < 1e-4 and ESS >= n_total.")
+        "sampler; it must finish with 1-beta < 1e-4 and ESS >= n_total. "
+        "DOWNSTREAM of the validation (harness/c18_path.py): suite ctx-semantics-X — every context tag of the use-site table "
+        "regenerated from /repo (G8) x every pool value, the model's semantics of that context vs Python/numpy/the real boundary "
+        "functions executing it; suite glue-runs — accepted configurations (documented-valid one-factor variations, every kind of "
+        "value acceptance does not exclude — bools as counts, inf/nan targets, cluster_every 0/None, odd pools, seeds, dtypes, "
+        "non-callable wrapped likelihood — and random pairs): the model's prediction for a complete run (total / certainly "
+        "raises <kinds>) vs the real Sampler(...).run(n_total=32); suite name-dispatch — Resampler.run and mcmc.parallel_mcmc "
+        "called directly with accepted and non-accepted names; suite foreign-values — numpy scalars, tuples, sets, ranges, arrays "
+        "as option values, oracle only: rejected at construction or accepted and run() completes.")
 MODELLED = ["Python's semantics of isinstance / <= / `in` / set() / all() / float() on the value universe V is written by hand in "
             "Model/ConfigSpec.lean (cross-checked here on every pool value); values outside V (numpy arrays, tuples, user classes "
             "with custom __eq__/__le__) are not covered",
@@ -42,12 +51,26 @@ MODELLED = ["Python's semantics of isinstance / <= / `in` / set() / all() / floa
             "'every valid combination runs to completion' is established by EXECUTION of the covering array only "
             "(numerical robustness is not provable in the model); the array's coverage is proved in Lean",
             "FunctionWrapper is always callable, so a non-callable log_likelihood is NOT rejected by Sampler(...) "
-            "(it is by SamplerConfig(...)); not one of the constraints listed in the statement — reported as a note"]
-ASSUMPTIONS = ["every payload-free constructor of V denotes one fixed Python object (shared function, Path('p'), object(), one nan)",
-               "Python's bool is an int: n_dim=True, n_particles=True, periodic=[True] satisfy `isinstance(., int)` and are "
-               "accepted by the code; Valid treats them as the integers 1/0 accordingly",
-               "ess_ratio = nan is not `<= 0` and is accepted (NaN is not 'non-positive' in the statement's wording)"]
-TRUSTED_EXTRA = ["translate/g2_validate.py (AST → rule table); cross-checked dynamically by regime X"]
+            "(it is by SamplerConfig(...)); not one of the constraints listed in the statement — reported as a note",
+            "downstream of the validation the model is a TABLE of syntactic use sites of option values (regenerated: G8) with a "
+            "hand-written semantics per context (Model/CtorPath.lean, tied by ctx-semantics-X); values computed FROM options are "
+            "followed only into `int(...)` and through the two clusterer keywords; control flow on run-time state is `unknown` "
+            "except four facts (progress bar installed, warm-up then annealing both occur, first iteration, likelihood returns "
+            "blobs)",
+            "multiprocess.Pool(k) for an int pool k > 1 is not executed by ctx-semantics-X (modelled: defined for k >= 1)",
+            "dtype strings: a finite list of good / bad ones; any other string is `unmodelled`"]
+ASSUMPTIONS = ["glue theorems: the documented type of every option is the table `docTy` of Props/C18Path.lean (genuine ints for "
+               "counts, finite positive targets, cluster_every >= 1, pool None | int | object with .map, random_state None or a "
+               "32-bit unsigned int, blobs_dtype None or a listed dtype string, log_likelihood_kwargs None — the universe has no "
+               "dict)",
+               "every payload-free constructor of V denotes one fixed Python object (shared function, Path('p'), object(), one nan)",
+               "since /repo b8d82fc a Python bool is not a dimension / particle count / boundary index and the two targets must "
+               "be finite: ValidListed, valid_listed and the regenerated rules agree (the earlier assumptions 'bools are ints' and "
+               "'nan is accepted' are gone); `True` is still a valid ess_ratio / volume_variation (the number 1)",
+               "math.isfinite(n) for an int beyond the double range raises OverflowError in Python; the model answers True"]
+TRUSTED_EXTRA = ["translate/g2_validate.py (AST → rule table); cross-checked dynamically by regime X",
+                 "translate/g8_ctorpath.py (AST data flow → use-site table, dispatch chains); cross-checked dynamically by glue-runs / "
+                 "name-dispatch"]
 
 # Known finding registered for this property (known_findings.json, witness F24_degenerate_cluster_singular): a proposal mode
 # fitted from too few distinct particles has a singular covariance and `ModeStatistics.__init__` (np.linalg.inv / cholesky,
@@ -68,7 +91,9 @@ EARLY_FALLBACK = ["n_dim must be int, got {}"]
 
 def translators():
     from translate import g2_validate
+    from translate import g8_ctorpath
     out = [g2_validate.generate_rules(), g2_validate.generate_ctor()]
+    out.append(g8_ctorpath.generate())
     out.append(generate_covering())
     return out
 
@@ -187,14 +212,14 @@ POOL = SCALARS + LISTS
 
 # values that violate the constraint of the given option (used for pairs of simultaneous violations)
 INVALID = {
-    "n_dim": [I(0), I(-1), F(1), S("1"), NONE, L(I(3)), B(False)],
-    "n_particles": [I(0), I(-1), F(1), F(Fraction(5, 2)), B(False), S("1"), L()],
-    "ess_ratio": [I(0), I(-1), F(Fraction(-1, 2)), F(0), B(False), S("1"), NONE, F("-inf")],
-    "volume_variation": [I(0), F(Fraction(-1, 2)), B(False), S("1"), L(), CALL],
+    "n_dim": [I(0), I(-1), F(1), S("1"), NONE, L(I(3)), B(False), B(True)],
+    "n_particles": [I(0), I(-1), F(1), F(Fraction(5, 2)), B(False), B(True), S("1"), L()],
+    "ess_ratio": [I(0), I(-1), F(Fraction(-1, 2)), F(0), B(False), S("1"), NONE, F("-inf"), F("inf"), F("nan")],
+    "volume_variation": [I(0), F(Fraction(-1, 2)), B(False), S("1"), L(), CALL, F("inf"), F("nan")],
     "sample": [S("x"), S(""), I(1), NONE, S("mult")],
     "resample": [S("x"), S("tpcn"), I(0), NONE, L()],
     "vectorize+blobs": [(B(True), S("f8")), (I(1), I(0)), (S("a"), L())],
-    "periodic": [L(I(3)), L(I(-1)), L(F(1)), L(S("a")), I(5), S("ab"), L(NESTED)],
+    "periodic": [L(I(3)), L(I(-1)), L(F(1)), L(S("a")), I(5), S("ab"), L(NESTED), L(B(True)), L(I(0), B(False))],
     "reflective": [L(I(3)), L(I(-1)), L(NONE), L(I(0), I(7)), F(1), L(NESTED)],
     "overlap": [(L(I(0), I(1)), L(I(1))), (L(I(0)), L(B(False))), (L(I(2)), L(I(2), I(0))), (L(F(1)), L(I(1)))],
     "prior_transform": [I(5), NONE, S("a")],
@@ -455,13 +480,21 @@ def correspond(tier):
             why = compare(real, ans)
             if why is None and real["like_calls"] != 0:
                 why = f"{real['like_calls']} likelihood call(s) during construction"
+            if why is None and real["prior_calls"] != 0:
+                why = f"{real['prior_calls']} prior_transform call(s) during construction"
             if why is not None:
                 c.disagree(input=line, why=why, impl=real, model=ans, cfg={f: enc(v) for f, v in cfg.items()}, level=level)
             elif real["cls"] != "accept":
                 c.sample({"op": line, "model": ans, "real": real.get("message", "")[:160]}, cap=4)
         out.append(c)
     out.append(run_covering(tier, drv))
+    out += c18_path.correspond(_self(), drv, tier)
     return out
+
+
+def _self():
+    import sys
+    return sys.modules[__name__]
 
 
 # =================================================================== covering array of the valid option lattice
@@ -796,10 +829,13 @@ def valid_listed(cfg):
     kw = {f: py(v) for f, v in cfg.items()}
 
     def is_int(x):
-        return isinstance(x, int)
+        return isinstance(x, int) and not isinstance(x, bool)      # a Python bool is not an integer dimension / count / index
 
     def is_num(x):
         return isinstance(x, (int, float))
+
+    def pos_fin(x):
+        return is_num(x) and x == x and 0 < x < float("inf")
     d = kw.get("n_dim")
     if not (is_int(d) and d > 0):
         return False, "n_dim is not a positive integer"
@@ -807,11 +843,11 @@ def valid_listed(cfg):
     if n is not None and not (is_int(n) and n > 0):
         return False, "n_particles is not a positive integer"
     e = kw.get("ess_ratio", 2.0)
-    if not (is_num(e) and not e <= 0):
-        return False, "ess_ratio is not a positive number"
+    if not pos_fin(e):
+        return False, "ess_ratio is not a positive finite number"
     vv = kw.get("volume_variation")
-    if vv is not None and not (is_num(vv) and not vv <= 0):
-        return False, "volume_variation is not a positive number"
+    if vv is not None and not pos_fin(vv):
+        return False, "volume_variation is not a positive finite number"
     if kw.get("sample", "tpcn") not in ("tpcn", "rwm") or not isinstance(kw.get("sample", "tpcn"), str):
         return False, "unknown kernel"
     if kw.get("resample", "mult") not in ("mult", "syst") or not isinstance(kw.get("resample", "mult"), str):
@@ -873,6 +909,12 @@ def search(tier, hints):
                 add(msg, cfg)
             elif h.get("level") == "sampler" and h.get("impl", {}).get("cls") in ("reject", "raise") and valid_and_typed(cfg):
                 add("valid configuration rejected at construction: " + h["impl"].get("message", "")[:200], cfg, spurious=True)
+    # 1b. downstream obligations (glue runs, dispatch, foreign values)
+    if len(found) < 5:
+        try:
+            c18_path.search(_self(), tier, hints, add, limit=5 - len(found))
+        except Exception:  # noqa
+            traceback.print_exc()
     # 2. the one-factor invalid values and pairs, directly as the property oracle
     if len(found) < 5:
         for kind, cfg in gen_cases(tier):
@@ -942,6 +984,8 @@ def replay(obj):
     if "witness" in f.get("replay", {}):
         from . import witnesses
         return witnesses.ALL[f["replay"]["witness"]]()
+    if "glue" in f or "foreign" in f:
+        return c18_path.replay(_self(), f)
     if "row_idx" in f:
         fs, _ = arrays()[f["tier_array"]]
         vals = row_values(fs, f["row_idx"])
